@@ -73,6 +73,12 @@ def build_tree(root, rng):
     files["fix/good_spread.graphql"] = "query S { a { ...Other } }\nfragment Other on A { id }\n"
     files["fix/bad_field.graphql"] = "query F { a { ...Fr } }\nfragment Fr on A { nope }\n"
     files["fix/good_field.graphql"] = "query F { a { ...Fr } }\nfragment Fr on A { name }\n"
+    # an operation that uses many types of every kind (8 enums, 6 custom scalars, 6 input types): whatever collects "the
+    # types this operation uses" must hand them on in an order that does not depend on the process or the call
+    many_t = "".join("enum En%d { A%d B%d }\nscalar Sc%d\ninput In%d { e: En%d s: Sc%d n: In%d }\n" % (k, k, k, k, k, k, k, (k + 1) % 6) for k in range(6)) + "enum En6 { X }\nenum En7 { Y }\n"
+    files["types/schema.graphql"] = many_t + "type T { " + " ".join("e%d: En%d s%d: Sc%d" % (k, k, k, k % 6) for k in range(8)) + " }\ntype Query { t(" + ", ".join("i%d: In%d" % (k, k) for k in range(6)) + "): T }\n"
+    files["types/q.graphql"] = ("query ManyTypes(" + ", ".join("$i%d: In%d" % (k, k) for k in range(6)) + ", $e: En7, $s: Sc3) { t(" + ", ".join("i%d: $i%d" % (k, k) for k in range(6)) + ") { "
+                                + " ".join("e%d s%d" % (k, k) for k in range(8)) + " } }\n")
     files["fix/rec.graphql"] = "query R { a { ...F } }\nfragment F on A { id a { ...F } }\n"
     files["fix/plain.graphql"] = "query P { a { ...F } }\nfragment F on A { id name }\n"
     files["fix/rec2.graphql"] = "query R2 { a { ...G ...F } }\nfragment G on A { name }\nfragment F on A { as { ...F } }\n"
@@ -97,6 +103,7 @@ def build_tree(root, rng):
     files["schema.graphql"] = files["b/schema.graphql"]
     files["q.graphql"] = files["b/q.graphql"]
     os.makedirs(os.path.join(root, "fix"))
+    os.makedirs(os.path.join(root, "types"))
     for rel, text in files.items():
         with open(os.path.join(root, rel), "w") as f:
             f.write(text)
@@ -139,6 +146,9 @@ def build_tree(root, rng):
         calls[-1]["deep"] = True
     call("fix/schema.graphql", text=files["fix/deep1.graphql"])
     calls[-1]["deep"] = True
+    for o in range(3):
+        call("types/schema.graphql", "types/q.graphql", opts=o)
+    call("types/schema.graphql", text=files["types/q.graphql"])
     call("fix/schema.graphql", "fix/rec.graphql")
     call("fix/schema.graphql", "fix/plain.graphql")
     call("fix/schema.graphql", "fix/rec2.graphql")
